@@ -216,6 +216,30 @@ func Generate(r *rand.Rand, workload string) *Model {
 		}
 	}
 
+	// ---- blank names: they declare nothing, so nothing overrides them and they override
+	// nothing. They are chunked into specs together with the named entities, which yields specs
+	// that are blank altogether (`var _ = f()`, `var _ T`, `var _, _ = f2()`, `var _, _ T`,
+	// `const _, _ = 1, 2`) and specs with placeholders (`var _, a = f2()`, `var a, _ = 1, 2`).
+	nBlank := 0
+	switch {
+	case workload == "blank":
+		nBlank = 2 + r.Intn(4)
+	case r.Intn(4) == 0:
+		nBlank = 1 + r.Intn(3)
+	}
+	for side := 0; side < 2; side++ {
+		if side == sideOver && !g.hasOver {
+			continue
+		}
+		for i := 0; i < nBlank; i++ {
+			if side == sideOver && r.Intn(2) == 0 {
+				continue
+			}
+			kind := []string{"var", "const"}[g.pick(75, 25)]
+			g.register(g.newEnt(kind, "_", "", 1<<side, dirNone))
+		}
+	}
+
 	// ---- placement
 	for side := 0; side < 2; side++ {
 		g.place(side)
@@ -232,21 +256,19 @@ func Generate(r *rand.Rand, workload string) *Model {
 		}
 	}
 	switch workload {
-	case "blank":
-		for side := 0; side < 2; side++ {
-			for k := 1 + r.Intn(2); k > 0; k-- {
-				e := g.newEnt("var", "_", "", 1<<side, dirNone)
-				f := g.anyFile(side)
-				g.insert(f, &MDecl{Tok: "var", Paren: r.Intn(3) == 0, Specs: []*MSpec{{Sides: []*ESide{e.S[side]}}}})
-			}
-		}
-	case "iota":
+	case "iota", "blankiota":
 		d := &MDecl{Tok: "const", Paren: true, Iota: true}
 		n := 3 + r.Intn(3)
 		hit := r.Intn(n)
+		// variant (workload blankiota): the group has blank names only, `const ( _ = iota; _ )`;
+		// nothing can override it, it has to stay what it is
+		allBlank := workload == "blankiota"
+		if allBlank {
+			n = 1 + r.Intn(3)
+		}
 		// variant: a group typed by a purged type, all of whose constants are overridden or
 		// purged too - nothing of the group may be left (it would refer to the purged type)
-		allGone := r.Intn(4) == 0
+		allGone := !allBlank && r.Intn(4) == 0
 		if allGone {
 			d.IotaType = "TI"
 			te := g.newEnt("type", "TI", "", oBoth, dirPurge)
@@ -255,6 +277,13 @@ func Generate(r *rand.Rand, workload string) *Model {
 			g.insert(g.anyFile(sideOver), &MDecl{Tok: "type", Specs: []*MSpec{{Purge: true, Sides: []*ESide{te.S[sideOver]}}}})
 		}
 		for i := 0; i < n; i++ {
+			// blank placeholders of the original, `const ( _ = iota; A; B )`: they keep the
+			// others in position and go when the last named constant of the group goes
+			if allBlank || (i != hit && r.Intn(5) == 0) {
+				e := g.newEnt("const", "_", "", oOrig, dirNone)
+				d.Specs = append(d.Specs, &MSpec{Sides: []*ESide{e.S[sideOrig]}})
+				continue
+			}
 			origin := oOrig
 			if i == hit || allGone || r.Intn(4) == 0 {
 				origin = oBoth
@@ -433,15 +462,21 @@ func (g *gen) valueSpecs(list []*ESide, side int, isVar bool) []*MSpec {
 			sp := &MSpec{Sides: l[:k:k]}
 			l = l[k:]
 			if k > 1 {
-				if isVar && roll >= 80 {
+				switch {
+				case isVar && roll >= 80:
 					sp.Call, sp.Marker = true, g.marker(side)
-				} else if r.Intn(3) == 0 {
+					if r.Intn(4) == 0 {
+						sp.Type = "string"
+					}
+				case isVar && roll >= 72:
+					sp.NoVal, sp.Marker = true, g.marker(side)
+				case r.Intn(3) == 0:
 					sp.Type = "string"
 				}
 			} else {
 				s := sp.Sides[0]
 				s.Typed = r.Intn(4) == 0
-				if isVar && r.Intn(10) == 0 {
+				if isVar && (r.Intn(10) == 0 || (s.Ent.Name == "_" && r.Intn(4) == 0)) {
 					s.NoValue = true
 				}
 			}
@@ -558,7 +593,7 @@ func (g *gen) directives(f *MFile) {
 				// "default" survives only if some declaration of the file really uses it
 				f.Imports = append(f.Imports, &MImport{Path: "unsafe", Form: []string{"blank", "default"}[r.Intn(2)]})
 			}
-		case s.Kind == "var" && e.Name != "_" && oneSided && len(s.spec.Sides) == 1 && !s.NoValue && r.Intn(100) < 10:
+		case s.Kind == "var" && e.Name != "_" && oneSided && len(s.spec.Sides) == 1 && !s.NoValue && !s.spec.single() && r.Intn(100) < 10:
 			s.Embed, s.Typed = true, false
 			if f.imp("embed") == nil {
 				f.Imports = append(f.Imports, &MImport{Path: "embed", Form: []string{"blank", "default"}[r.Intn(2)]})
@@ -667,11 +702,17 @@ func (g *gen) host(s *ESide, im *MImport) string {
 		}
 		return "body"
 	case "type":
-		if s.TypeKind == "struct" {
+		switch s.TypeKind {
+		case "struct", "alias":
 			return "field"
+		case "iface":
+			if unsafe || embed {
+				return ""
+			}
+			return "iface"
 		}
 	case "var":
-		if s.NoValue || s.Embed || embed || (unsafe && s.spec.Call) {
+		if s.NoValue || s.spec.NoVal || s.Embed || embed || (unsafe && s.spec.Call) {
 			return ""
 		}
 		return "value"
@@ -709,7 +750,7 @@ func (g *gen) uses(f *MFile) {
 				continue
 			}
 			if w := g.host(s, im); w != "" {
-				s.Uses = append(s.Uses, Use{Imp: im, Where: w})
+				s.Uses = append(s.Uses, Use{Imp: im, Where: w, Form: r.Intn(1 << 12)})
 			}
 		}
 	}
@@ -717,7 +758,7 @@ func (g *gen) uses(f *MFile) {
 		if (s.Kind == "func" || s.Kind == "method") && !s.NoBody && r.Intn(100) < 15 && len(f.Imports) > 0 {
 			im := f.Imports[r.Intn(len(f.Imports))]
 			if (im.Form == "default" || im.Form == "alias") && !s.usesImp(im) && im.Path != "embed" {
-				s.Shadow = append(s.Shadow, im)
+				s.Shadow = append(s.Shadow, Shadow{Imp: im, Form: r.Intn(4)})
 			}
 		}
 	}
@@ -748,9 +789,9 @@ func fixImports(f *MFile, blankIt func() bool) {
 				im.Form = "blank"
 			default:
 				for _, s := range sides { // shadows of a vanished import are plain locals; drop them
-					var sh []*MImport
+					var sh []Shadow
 					for _, x := range s.Shadow {
-						if x != im {
+						if x.Imp != im {
 							sh = append(sh, x)
 						}
 					}
@@ -764,9 +805,9 @@ func fixImports(f *MFile, blankIt func() bool) {
 	f.Imports = keep
 	// a blank-imported package has no local name to shadow
 	for _, s := range sides {
-		var sh []*MImport
+		var sh []Shadow
 		for _, x := range s.Shadow {
-			if x.Form != "blank" {
+			if x.Imp.Form != "blank" {
 				sh = append(sh, x)
 			}
 		}
@@ -782,12 +823,7 @@ func (m *Model) fixDots() {
 	_, fate := m.fates()
 	for side := 0; side < 2; side++ {
 		for _, f := range m.Files[side] {
-			alive := func(s *ESide) bool {
-				if side == sideOver {
-					return !s.purged() && !((s.Kind == "func" || s.Kind == "method") && s.Ent.Dir == dirSig)
-				}
-				return fate[s] != "drop"
-			}
+			alive := aliveFn(side, fate)
 			survivors := 0
 			for _, s := range f.sides() {
 				if alive(s) {
@@ -859,10 +895,26 @@ func (s *ESide) grouping() string {
 	switch {
 	case s.decl.Iota:
 		g += "-iota"
+		if s.Ent.Name == "_" {
+			g += "-blank"
+		}
 	case s.spec.Call:
 		g += "-call"
+	case s.spec.NoVal:
+		g += "-noval"
 	case len(s.spec.Sides) > 1:
 		g += "-multi"
+	}
+	if s.spec.Type != "" || s.Typed {
+		g += "-typed"
+	}
+	switch {
+	case s.NoValue:
+		g += "-novalue"
+	case len(s.spec.Sides) > 1 && s.spec.allBlank():
+		g += "-allblank"
+	case s.Ent.Name != "_" && s.spec.anyBlank():
+		g += "-placeholder"
 	}
 	if s.decl.Purge {
 		g += "@decl"
